@@ -399,3 +399,58 @@ Proof.
     destruct (render_for_loop b x len base vs i s1 k) as [[o1 t1] k1]; destruct (render_for_loop b x len base vs i s2 k) as [[o2 t2] k2] end.
   destruct H as (-> & -> & _). split; reflexivity.
 Qed.
+
+(* ---- the for-form with arbitrary arguments: what is needed is that the argument expressions cannot tell the two
+   callers apart, now and after the partial has moved the (shared) counters ---- *)
+From LV Require Import ShapeProofs GenInv IsoProofs.
+Lemma body_keeps_caller_frames O ps d body a s k : wfr s ->
+  match render O ps d body (push_sandbox a s) k with (_, s', _) => strict (fr s) (fr (pop_sandbox s')) /\ wfr (pop_sandbox s') end.
+Proof.
+  intro W.
+  pose proof (registers_inner_only O ps d body (push_sandbox a s) k (wfr_push_sandbox _ _)) as HA.
+  pose proof (frames_below_global_kept O ps d body (push_sandbox a s) k (wfr_push_sandbox _ _)) as HB.
+  destruct (render O ps d body (push_sandbox a s) k) as [[o1 s1] k1].
+  destruct HA as [_ TA]. destruct HB as [_ HB]. simpl in TA. split.
+  - destruct (HB [FGlobal []; FSandbox a] (fr s) eq_refl eq_refl) as [top' [base' [F [L S]]]].
+    destruct top' as [|f1 [|f2 [|f3 top']]]; simpl in L; try discriminate.
+    unfold pop_sandbox; simpl. rewrite F. simpl. exact S.
+  - unfold wfr, pop_sandbox; simpl. rewrite <- TA. exact W.
+Qed.
+Lemma render_for_ni_gen O ps d body x len base c1 c2 :
+  (forall t1 t2, strict c1 (fr t1) -> strict c2 (fr t2) -> ixobj (fr t1) = ixobj (fr t2) -> base t1 = base t2) ->
+  forall vs i s1 s2 k, wfr s1 -> wfr s2 -> strict c1 (fr s1) -> strict c2 (fr s2) -> ixobj (fr s1) = ixobj (fr s2) ->
+  match render_for_loop (render O ps d body) x len base vs i s1 k, render_for_loop (render O ps d body) x len base vs i s2 k with
+  | (o1, _, k1), (o2, _, k2) => o1 = o2 /\ k1 = k2
+  end.
+Proof.
+  intros Hbase. induction vs as [|v vs IH]; intros i s1 s2 k W1 W2 S1 S2 IX; [split; reflexivity|]. cbn [render_for_loop].
+  rewrite (Hbase s1 s2 S1 S2 IX). destruct (base s2) as [b0| | |]; cbn [of_res]; try (split; reflexivity).
+  match goal with |- context [render O ps d body (push_sandbox ?r s1) k] =>
+    pose proof (G2_render O ps d body 0 0 _ _ k (R_fresh_sandbox r s1 s2 IX)) as H;
+    pose proof (body_keeps_caller_frames O ps d body r s1 k W1) as K1;
+    pose proof (body_keeps_caller_frames O ps d body r s2 k W2) as K2;
+    destruct (render O ps d body (push_sandbox r s1) k) as [[o1 t1] k1]; destruct (render O ps d body (push_sandbox r s2) k) as [[o2 t2] k2] end.
+  destruct H as (-> & -> & HR). destruct (R_regs _ _ _ _ HR) as [Eg _]. pose proof (R00_pop _ _ HR) as IX'.
+  destruct K1 as [K1 W1']. destruct K2 as [K2 W2'].
+  destruct o2; try (split; reflexivity). rewrite Eg.
+  destruct (match r_intr (get_regs t2) with Some Brk => true | _ => false end); [split; reflexivity|].
+  apply IH; auto; eapply strict_trans; eassumption.
+Qed.
+Theorem render_for_noninterference_gen O ps d p rng x args s1 s2 k : wfr s1 -> wfr s2 ->
+  eval_expr O p s1 = eval_expr O p s2 -> eval_range O rng s1 = eval_range O rng s2 ->
+  (forall t1 t2, strict (fr s1) (fr t1) -> strict (fr s2) (fr t2) -> ixobj (fr t1) = ixobj (fr t2) ->
+     eval_args O args t1 [] = eval_args O args t2 []) ->
+  ixobj (fr s1) = ixobj (fr s2) ->
+  match rnode O ps (render O ps d) (NRender p (Some (rng, x)) args) s1 k, rnode O ps (render O ps d) (NRender p (Some (rng, x)) args) s2 k with
+  | (o1, _, k1), (o2, _, k2) => o1 = o2 /\ k1 = k2
+  end.
+Proof.
+  intros W1 W2 Ep Er Ea IX. cbn [rnode]. rewrite Ep, Er, (Ea s1 s2 (strict_refl _) (strict_refl _) IX).
+  destruct (eval_expr O p s2) as [pv| | |]; cbn [of_res]; try (split; reflexivity).
+  destruct pv; try (split; reflexivity).
+  destruct (eval_range O rng s2) as [arr| | |]; cbn [of_res]; try (split; reflexivity).
+  destruct arr as [|v0 vs0]; [split; reflexivity|].
+  destruct (eval_args O args s2 []) as [a| | |]; cbn [of_res]; try (split; reflexivity).
+  match goal with |- context [of_res ?r s1 k _] => destruct r as [body| | |]; cbn [of_res]; try (split; reflexivity) end.
+  apply (render_for_ni_gen O ps d body x _ (fun s' => eval_args O args s' []) (fr s1) (fr s2) Ea); auto using strict_refl.
+Qed.
